@@ -11,9 +11,11 @@ void SortedPipeline::insertBetweenNearLeft(const QSet<HandlerType> &leftType,
             std::find_if(handlers().begin(), handlers().end(),
                          [&rightType](const auto &x) { return rightType.contains(x->type()); });
 
-    auto lastLeft = std::find_if(firstRight, handlers().begin(), [&leftType](const HandlerPtr &x) {
-        return leftType.contains(x->type());
-    });
+    // Search backwards from firstRight for the last handler of a "left" type
+    auto lastLeft = std::find_if(std::make_reverse_iterator(firstRight), handlers().rend(),
+                                 [&leftType](const HandlerPtr &x) {
+                                     return leftType.contains(x->type());
+                                 }).base();
 
     handlers().insert(lastLeft, handler);
 }
@@ -23,9 +25,11 @@ void SortedPipeline::insertBetweenNearRight(const QSet<HandlerType> &leftType,
                                             const QSet<HandlerType> &rightType,
                                             const HandlerPtr &handler)
 {
+    // Search backwards from the end for the last handler of a "left" type
     auto lastLeft =
-            std::find_if(handlers().end(), handlers().begin(),
-                         [&leftType](const HandlerPtr &x) { return leftType.contains(x->type()); });
+            std::find_if(handlers().rbegin(), handlers().rend(),
+                         [&leftType](const HandlerPtr &x) { return leftType.contains(x->type()); })
+                    .base();
 
     auto firstRight = std::find_if(lastLeft, handlers().end(), [&rightType](const auto &x) {
         return rightType.contains(x->type());
@@ -93,8 +97,8 @@ void SortedPipeline::setFormatter(const FormatterPtr &formatter)
 
     clearFormatters();
 
-    insertBetweenNearRight({ HandlerType::AttrHandler, HandlerType::Filter }, { HandlerType::Sink },
-                           formatter);
+    insertBetweenNearRight({ HandlerType::AttrHandler, HandlerType::Filter },
+                           { HandlerType::Sink, HandlerType::Pipeline }, formatter);
 }
 
 QTLOGGER_DECL_SPEC
@@ -106,7 +110,12 @@ void SortedPipeline::clearFormatters()
 QTLOGGER_DECL_SPEC
 void SortedPipeline::appendSink(const SinkPtr &sink)
 {
-    append(sink);
+    if (sink.isNull())
+        return;
+
+    insertBetweenNearLeft({ HandlerType::AttrHandler, HandlerType::Filter, HandlerType::Formatter,
+                            HandlerType::Sink },
+                          { HandlerType::Pipeline }, sink);
 }
 
 QTLOGGER_DECL_SPEC
